@@ -90,9 +90,9 @@ func checkC13(r *Run) {
 func checkC15(r *Run) {
 	type mk = func() *descgen.Entry
 	var makers []mk
-	cur := []mk{descgen.K1, descgen.K3, descgen.K5, func() *descgen.Entry { return descgen.K6(0) }, func() *descgen.Entry { return descgen.K6(3) }, descgen.K7, descgen.K9, descgen.K8, func() *descgen.Entry { return descgen.K10(false) }, descgen.K2, descgen.K4}
+	cur := []mk{descgen.K1, descgen.K3, descgen.K5, func() *descgen.Entry { return descgen.K6(0) }, func() *descgen.Entry { return descgen.K6(3) }, func() *descgen.Entry { return descgen.K6(5) }, descgen.K7, descgen.K9, descgen.K8, func() *descgen.Entry { return descgen.K10(false) }, descgen.K2, descgen.K4}
 	for i, m := range cur {
-		if r.thorough() || i < 8 {
+		if r.thorough() || i < 9 {
 			makers = append(makers, m)
 		}
 	}
@@ -451,7 +451,7 @@ func checkC11(r *Run) {
 				key := o.Key
 				label := ""
 				switch {
-				case (o.Field.Name == "value" || o.Field.Name == "key") && hasMap && !done["kv"]:
+				case o.Field.Name == "value" && hasMap && !done["kv"]:
 					done["kv"] = true
 					opts, label = []string{"exclude_fields", "sensitive_fields"}, "message.field/named-like-map-entry"
 					live := 0
